@@ -264,6 +264,21 @@ Theorem C13_history_parsed_cached : forall ops st i d r, nth_error (hs_docs st) 
 Proof. exact history_parsed_cached. Qed.
 Print Assumptions C13_history_parsed_cached.
 
+(* The value of a docstring can be assigned at any time: `lines` gives the lines of the CURRENT value after any history ... *)
+Theorem C13_history_lines_current : forall st ops i,
+  snd (hstep (fst (hexec st ops)) (HReadLines i)) = snd (hstep (fst (hexec st (writes_only ops))) (HReadLines i)).
+Proof. exact history_lines_current. Qed.
+Print Assumptions C13_history_lines_current.
+
+(* ... and after an assignment, whatever was parsed or read before, `lines` gives the new lines and parse parses them. *)
+Theorem C13_value_assignment_takes_effect : forall st ops i d ls s o, read_only ops = true ->
+  nth_error (hs_docs st) i = Some d ->
+  let st' := fst (hstep (fst (hexec st ops)) (HSetValue i ls)) in
+  snd (hstep st' (HReadLines i)) = ObsLines ls /\
+  snd (hstep st' (HParse i s o)) = ObsRes (parse_pure (hd_parent d) ls (pick_hstyle s (hd_parser d)) (in_force (hs_heap st) d o)).
+Proof. exact value_assignment_takes_effect. Qed.
+Print Assumptions C13_value_assignment_takes_effect.
+
 (* Non-vacuity / aliasing: two docstrings share dictionary 0, a third has its own.  Per-call options on one docstring leave the
    others alone; a write into the shared dictionary is seen by both sharers only; a new dictionary assigned to one is not
    seen by the other. *)
